@@ -136,7 +136,8 @@ def _corrupt(rng, script):
     if kind == "letter":
         s[k] = body[:-1] + rng.choice("bxi ") + "\n"
     elif kind == "range_a":
-        s[k] = "1,2a\n"
+        # a range on an append is malformed whatever its endpoints: different, equal, zero, descending
+        s[k] = rng.choice(["1,2a\n", "3,3a\n", "0,0a\n", "2,1a\n", "7,7a\n", "%s,%sa\n" % ((body[:-1].split(",")[0] or "1",) * 2)])
         s[k + 1:k + 1] = [] if body.endswith(("a", "c")) else ["t\n", ".\n"]
     elif kind == "noterm":
         terms = [j for j, x in enumerate(s) if x in (".\n", ".")]
